@@ -382,9 +382,9 @@ def write_replay(pid, record, sig, detail, base_seed, shrink_execs, directory=No
     os.makedirs(d, exist_ok=True)
     path = os.path.join(d, '%s-%s.json' % (record.get('seed'), sig8(sig)))
     with open(path, 'w') as f:
-        json.dump({'property': pid, 'signature': sig, 'detail': detail, 'record': record,
-                   'verif_seed': base_seed, 'shrink_executions': shrink_execs,
-                   'tree': tree_identity()}, f, indent=1, sort_keys=True, default=repr)
+        json.dump(_canon({'property': pid, 'signature': sig, 'detail': detail, 'record': record,
+                          'verif_seed': base_seed, 'shrink_executions': shrink_execs,
+                          'tree': tree_identity()}), f, indent=1, sort_keys=True, default=_plain_repr)
         f.write('\n')
     return path
 
